@@ -1,3 +1,4 @@
+import re
 """C06 - locks exclude; promised edges are happens-before (structural clauses).
 
 Decides: the memory order requested at every atomic access on a promised edge
@@ -64,6 +65,12 @@ def acquisition_shape(ctx, fx):
                 det.append("no atomic read-modify-write")
             slow = is_call(name="slow_lock")
             slow2 = is_call(name="ptr_slow_lock")
+            # the table says how the function acquires today; a function that is rewritten from fetch_or to a CAS loop (or
+            # back) is judged by the shape it has
+            if rm and all(e["kind"] == "cas" for _, e in rm):
+                kind = "cas"
+            elif rm and all(e["kind"] == "rmw" for _, e in rm):
+                kind = "rmw"
             if kind == "cas":
                 is_cas = lambda t: t.get("k") == "call" and t.get("name", "").startswith("compare_exchange")
                 ge = fn.guard_edges(is_cas, True)
@@ -84,6 +91,35 @@ def acquisition_shape(ctx, fx):
                     a = [S(x) for x in e.get("a", [])]
                     if e["kind"] == "cas" and len(a) >= 2 and not (a[1] == "1" or "| 1" in a[1]):
                         det.append("CAS does not install the locked value: %s" % a)
+                    # the value the CAS expects must be an UNLOCKED word: a CAS that expects `P|1` and installs `P|1`
+                    # succeeds while somebody else holds the lock. A failed compare_exchange writes the current word (lock
+                    # bit and all) into its `expected` variable, so on every path to the CAS -- from the function entry,
+                    # from any assignment to that variable and from the CAS itself (retry) -- the variable is either
+                    # assigned a value with the bit cleared (0, nullptr, `x & ~1`) or tested `(v & 1) == 0`
+                    if e["kind"] == "cas" and a:
+                        ev_ = a[0]
+                        if not re.fullmatch(r"\w+", ev_):
+                            continue
+                        me = e
+
+                        def clears(x, ev_=ev_):
+                            if x.get("k") == "decl" and x.get("n") == ev_ and "init" in x:
+                                v = S(x["init"])
+                            elif x.get("k") == "assign" and x.get("lp") == ev_ and x.get("op") in ("=", "&="):
+                                v = ("%s & " % ev_ if x.get("op") == "&=" else "") + S(x.get("rhs"))
+                            else:
+                                return False
+                            v = v.replace(" ", "")
+                            return v in ("0", "nullptr", "(uintptr_t)0", "0UL") or "&~1" in v or "&(~1)" in v or "&~(uintptr_t)1" in v
+                        bit = lambda t, ev_=ev_: re.fullmatch(r"\(%s & 1\)" % re.escape(ev_), S(t).replace("UL", "")) is not None
+                        ge0 = fn.guard_edges(bit, False)
+                        writes = lambda x, ev_=ev_: (x.get("k") == "assign" and x.get("lp") == ev_) or (x.get("k") == "decl" and x.get("n") == ev_)
+                        starts = [fn.entry_state(), fn.after(p)] + [fn.after(q) for q, x in fn.events(writes) if not clears(x)]
+                        h, _ = fn.search(starts, stop=lambda x: x is me or clears(x), edge_ok=lambda b, i, s_: (b, i) not in ge0)
+                        if any(fn.ev(y) is me for y in h):
+                            det.append("the CAS expects `%s`, which is not known to have the lock bit clear on every path to it "
+                                       "(a failed CAS reloads it with the current, possibly locked, word): expecting a locked "
+                                       "word and installing the same word succeeds while another thread holds the lock" % ev_)
             else:
                 # fetch_or(1): the old value must be what is tested / returned
                 holders = set()
